@@ -117,7 +117,9 @@ class HplSimpleEvent(HplEvent):
         it_does: bool = self.predicate.contains_self_reference()
         if it_does:
             return True
-        return self.alias and self.predicate.contains_reference(self.alias)
+        # only a free occurrence of the alias refers to this message;
+        # a quantifier may bind a variable of the same name
+        return bool(self.alias) and self.alias in self.predicate.external_references()
 
     def replace_var_reference(self, alias: str, expr: HplExpression) -> HplEvent:
         phi = self.predicate.replace_var_reference(alias, expr)
